@@ -1,6 +1,20 @@
 import Driver.RelDist
+import Driver.Config
+import Driver.Reorder
+import Driver.Packetize
+import Driver.QpTail
+import Driver.IntraPeriod
+import Driver.Dpb
+import Driver.RangeCoder
 
 def main (args : List String) : IO UInt32 := do
   match args with
   | ["reldist"] => Driver.relDistMain; return 0
+  | ["config"] => Driver.configMain; return 0
+  | ["reorder"] => Driver.reorderMain; return 0
+  | ["packetize"] => Driver.packetizeMain; return 0
+  | ["qptail"] => Driver.qpTailMain; return 0
+  | ["intraperiod"] => Driver.intraPeriodMain; return 0
+  | ["dpb"] => Driver.dpbMain; return 0
+  | ["ec"] => Driver.ecMain; return 0
   | _ => IO.eprintln "usage: svtmodel <subcommand>  (input on stdin, one op per line)"; return 2
